@@ -289,7 +289,7 @@ fn text_damage(r: &mut Rng, bytes: &[u8]) -> Damage {
     let len = bytes.len().max(1);
     match r.below(6) {
         0 => Damage::SetByte { off: r.usize_below(len), value: *r.pick(&[b'<', b'>', b'\t', b'\r', b'\n', 0, 0xFF, 0xC3, b',', b'-']) },
-        1 => Damage::Insert { off: r.usize_below(len), hex: hex(*r.pick(&[&b"<"[..], b">", b"<>", b"\r\n", b"\t", b"\r\n\r\n", b"\xff\xfe", b"X-Patch-Length: ", b"\t\t\t", b"99999999999999999999", "\u{e9}".as_bytes(), "\u{6f22}".as_bytes(), "\u{1f600}".as_bytes(), "\u{e9}\u{6f22}".as_bytes()])) },
+        1 => Damage::Insert { off: r.usize_below(len), hex: hex(*r.pick(&[&b"<"[..], b">", b"<>", b"><", b">a<", b"\r\n", b"\t", b"\r\n\r\n", b"\xff\xfe", b"X-Patch-Length: ", b"\t\t\t", b"99999999999999999999", "\u{e9}".as_bytes(), "\u{6f22}".as_bytes(), "\u{1f600}".as_bytes(), "\u{e9}\u{6f22}".as_bytes()])) },
         2 => {
             // delete a span: modelled as truncate + append of the tail is not expressible; drop a line end instead
             let nl: Vec<usize> = bytes.iter().enumerate().filter(|(_, b)| **b == b'\n' || **b == b'\t').map(|(i, _)| i).collect();
@@ -597,10 +597,14 @@ pub fn directed() -> Vec<Doc> {
                         places.push(i + 1);
                     }
                 }
+                // and inside ordinary lines, for small objects
+                if bytes.len() <= 600 {
+                    places.extend((0..bytes.len()).step_by(5));
+                }
                 places.sort();
                 places.dedup();
-                places.truncate(64);
-                const TOKENS: [&[u8]; 11] = [b"<", b">", b"<>", b"\r\n", b"\t", b"\r\n\r\n", b"X-Patch-Length: ", b"\t\t\t", b"99999999999999999999", "\u{e9}".as_bytes(), "\u{6f22}".as_bytes()];
+                places.truncate(160);
+                const TOKENS: [&[u8]; 13] = [b"<", b">", b"<>", b"><", b">a<", b"\r\n", b"\t", b"\r\n\r\n", b"X-Patch-Length: ", b"\t\t\t", b"99999999999999999999", "\u{e9}".as_bytes(), "\u{6f22}".as_bytes()];
                 for at in &places {
                     for t in TOKENS {
                         push(C17Doc::Buffer { format: format.to_string(), base: base.clone(), damage: vec![Damage::Insert { off: *at, hex: hex(t) }] }, &mut out);
@@ -608,6 +612,27 @@ pub fn directed() -> Vec<Doc> {
                 }
             }
             if !is_text(format) {
+                // two header fields made large together (one may be the bound the other is checked against)
+                let fs = fields_for(format, &bytes);
+                for (i, f1) in fs.iter().enumerate().take(12) {
+                    for f2 in fs.iter().take(12).skip(i + 1) {
+                        if f1.width < 2 || f2.width < 2 {
+                            continue;
+                        }
+                        let large = |f: &Field| if f.width >= 4 { 0x7FFF_FFF0u64 } else { 0x7FF0 };
+                        push(
+                            C17Doc::Buffer {
+                                format: format.to_string(),
+                                base: base.clone(),
+                                damage: vec![
+                                    Damage::Field { name: f1.name.clone(), off: f1.off, width: f1.width, be: f1.be, value: large(f1) },
+                                    Damage::Field { name: f2.name.clone(), off: f2.off, width: f2.width, be: f2.be, value: large(f2) },
+                                ],
+                            },
+                            &mut out,
+                        );
+                    }
+                }
                 for f in fields_for(format, &bytes) {
                     let orig = damage::read_field(&bytes, &f);
                     for v in damage::field_values(orig, f.width) {
